@@ -1,19 +1,17 @@
 package server
 
-import "strings"
+import (
+	"net/http"
+	"net/url"
+	"strings"
+)
 
 // ---- C04: routing ----
 
 // vValidPrefix: the shape NormalizePathPrefixes produces ("/" + trimmed of slashes).
 func vValidPrefix(p string) bool {
-	n := len(p)
-	if n == 0 {
-		return false
-	}
-	if n == 1 {
-		return p[0] == '/'
-	}
-	return vAnd(p[0] == '/', vAnd(p[1] != '/', p[n-1] != '/'))
+	// written with string models only, so that it builds one formula and never forks
+	return vAnd(strings.HasPrefix(p, "/"), vOr(len(p) == 1, vAnd(!strings.HasSuffix(p, "/"), !strings.HasPrefix(p, "//"))))
 }
 
 // vArbitraryTable builds a ServiceMap whose requestServiceMap is an arbitrary table satisfying the
@@ -111,4 +109,96 @@ func HarnessRouteLookup() {
 	vCover(got != nil && gotPrefix != "/", "non-root match reachable")
 	vCover(got == nil, "404 reachable")
 	vCover(got != nil && len(host) > 0 && len(keys) > 0 && keys[0] != host, "non-exact host match reachable")
+}
+
+// ---- host header -> lookup key (ServiceForRequest with the real net.SplitHostPort) ----
+
+var vSeenHost, vSeenPath string
+var vSeenCalls int
+
+//verif:stub (*github.com/basecamp/kamal-proxy/internal/server.ServiceMap).serviceFor harness=HarnessRoutePort
+func stubServiceForRecord(m *ServiceMap, host, path string) (*Service, string) {
+	vSeenHost, vSeenPath = host, path
+	vSeenCalls++
+	return nil, ""
+}
+
+func vHasByte(s string, c byte) bool { return strings.IndexByte(s, c) >= 0 }
+
+func HarnessRoutePort() {
+	h := vString("hosthdr", vParam("hostcap", 8))
+	path := vString("path", 3)
+	m := NewServiceMap()
+	req := &http.Request{Host: h, URL: &url.URL{Path: path}}
+	m.ServiceForRequest(req)
+	vAssert(vSeenCalls == 1, "port: one lookup")
+	vAssert(vSeenPath == path, "port: path passed through")
+
+	// reference: name | name:port | [lit]:port  (name, port free of ":[]"; lit free of "[]") => name / name / lit; else verbatim
+	want := h
+	first := strings.IndexByte(h, ':')
+	last := strings.LastIndexByte(h, ':')
+	if first > 0 {
+		if h[0] == '[' {
+			end := strings.IndexByte(h, ']')
+			if end >= 0 && end+1 == last && !vHasByte(h[1:], '[') && !vHasByte(h[end+1:], ']') {
+				want = h[1:end]
+			}
+		} else if first == last && !vHasByte(h, '[') && !vHasByte(h, ']') {
+			want = h[:last]
+		}
+	}
+	vAssert(vSeenHost == want, "port: lookup key is the host without its port")
+	vCover(vSeenHost != h && h[0:1] != "[", "name:port reachable")
+	vCover(vSeenHost != h && h[0:1] == "[", "[lit]:port reachable")
+	vCover(first > 0 && vSeenHost == h, "malformed host:port looked up verbatim reachable")
+}
+
+// ---- Router.ServeHTTP: 404 and the strip-prefix context ----
+
+var vServed *Service
+var vServedPrefix string
+var vServedHasCtx bool
+
+//verif:stub (*github.com/basecamp/kamal-proxy/internal/server.Service).ServeHTTP harness=HarnessRoute404
+func stubServiceServeRecord(s *Service, w http.ResponseWriter, r *http.Request) {
+	vServed = s
+	rc := RoutingContext(r)
+	vServedHasCtx = rc != nil
+	if rc != nil {
+		vServedPrefix = rc.MatchedPrefix
+	}
+}
+
+func HarnessRoute404() {
+	r := NewRouter("/state")
+	m, keys, tables := vArbitraryTable(vParam("keys", 1), vParam("bindings", 2), vParam("hostcap", 4), vParam("prefcap", 3))
+	r.services = m
+	strip := vBool("strip")
+	for _, bs := range tables {
+		for _, b := range bs {
+			b.service.options.StripPrefix = strip
+		}
+	}
+	host := vString("host", vParam("hostcap", 4))
+	vAssume(!vHasByte(host, ':'))
+	path := vString("path", vParam("pathcap", 4))
+	vAssume(vOr(len(path) == 0, strings.HasPrefix(path, "/")))
+	req := &http.Request{Method: "GET", Host: host, URL: &url.URL{Path: path}, Header: http.Header{}}
+	w := vNewRecorder()
+	r.ServeHTTP(w, req)
+	want, wantPrefix := refRoute(keys, tables, host, path)
+	if want == nil {
+		vAssert(vServed == nil, "404: no service handles an unroutable request")
+		vAssert(w.status == 404, "404: unroutable request answered 404")
+	} else {
+		vAssert(vServed == want, "404: routed request handed to the chosen service")
+		vAssert(!w.wroteHeader, "404: router itself writes nothing for a routed request")
+		vAssert(vServedHasCtx == vAnd(strip, wantPrefix != "/"), "strip: matched prefix attached iff stripping applies and the prefix is not the root")
+		if vServedHasCtx {
+			vAssert(vServedPrefix == wantPrefix, "strip: the attached prefix is the matched one")
+		}
+	}
+	vCover(want == nil, "404 reachable")
+	vCover(vServedHasCtx, "strip context reachable")
 }
